@@ -3,7 +3,7 @@
 // a fresh real Gudhi::persistence_matrix::Matrix<Options> for each option set of this unit (-DVF_CFG=k), each field and
 // each identifier scheme, and the whole observable state after the last operation is compared with an independent
 // dense reduction over Z_p (ref::persistence) and with the identities named in the property.
-#include "pm_common.hpp"
+#include "pm_verify.hpp"
 #include "pm_configs.hpp"
 
 using namespace pmc;
@@ -13,371 +13,17 @@ using namespace pmc;
 extern "C" const char* __asan_default_options() { return "symbolize=0:fast_unwind_on_fatal=1"; }
 extern "C" const char* __ubsan_default_options() { return "symbolize=0"; }
 
-static bool g_tail = true;  // R-only matrices: after the barcode, remove_last until empty, comparing after each
-static std::string g_cls_suffix;  // appended to every class of a history that calls remove_last on an empty matrix
-
-enum Counter {
-  EV_TRACES, EV_TRANSITIONS, EV_EVALUATIONS, EV_NONTRIVIAL, MISMATCHES, NV_ESSENTIAL, NV_FINITE, NV_CHANGED, NV_REMHIST,
-  NV_OFFDIAG, NV_TAIL, NV_NONUNIT, NV_CHAINMULTI, NV_EMPTYREM, CASES_FIRST  // + flavour * 2 + (zp ? 1 : 0)
-};
-static const char* counter_names[] = {
-  "ev.traces", "ev.transitions", "ev.evaluations", "ev.nontrivial", "mismatches_total", "nv.bars_essential", "nv.bars_finite",
-  "nv.columns_changed_by_reduction", "nv.histories_with_remove_last", "nv.ru_cases_with_offdiagonal_factor",
-  "nv.tail_remove_last_after_barcode", "nv.zp_non_unit_coefficient", "nv.chain_columns_with_several_cells",
-  "nv.histories_with_remove_last_on_empty_matrix",
-  "cases.boundary.z2", "cases.boundary.zp", "cases.ru.z2", "cases.ru.zp", "cases.chain.z2", "cases.chain.zp"};
-
 template <class O>
-struct Check {
+struct Check : Verifier<O> {
   using E = Exec<O>;
-  using Index = unsigned int;
-  static constexpr Index NUL = (Index)-1;
-  std::string cfg = opt_name<O>();
-  std::string fl = fl_name(O::flavour);
-  long long comparisons = 0;
-
-  void bad(const std::string& cls, const std::string& detail) {
-    std::string full = with_suffix("C05:" + cls, g_cls_suffix);
-    cnt(MISMATCHES)++;
-    if (class_should_print(full)) vf::mismatch(full, cfg + " " + detail);
-  }
-  template <class A, class B>
-  bool eq(const A& got, const B& want, const std::string& cls, const std::string& what) {
-    ++comparisons;
-    if (got == want) return true;
-    std::ostringstream o;
-    o << what << " got " << got << " want " << want;
-    bad(cls, o.str());
-    return false;
-  }
-
-  // ---- parts common to the three flavours ----
-  void common(E& ex) {
-    Model& md = ex.mod;
-    phase("get_number_of_columns");
-    eq((long long)ex.m->get_number_of_columns(), (long long)md.n(), "get_number_of_columns:" + fl, "number of columns");
-    if constexpr (O::has_matrix_maximal_dimension_access) {
-      phase("get_max_dimension");
-      eq((int)ex.m->get_max_dimension(), md.max_dim(), "get_max_dimension:" + fl, "max dimension");
-    }
-  }
-
-  std::vector<ref::Pair> oracle_pairs(const Model& md) { return ref::persistence(md.ref_cells(), md.p); }
-
-  void compare_barcode(E& ex, const std::string& stage) {
-    if constexpr (O::has_column_pairings) {
-      auto got = ex.barcode();
-      auto want = oracle_pairs(ex.mod);
-      ++comparisons;
-      if (!(got == want)) bad("barcode:" + fl + stage, "got " + pairs_str(got) + " want " + pairs_str(want));
-      for (auto& q : want) cnt(q.death < 0 ? NV_ESSENTIAL : NV_FINITE)++;
-    }
-  }
-
-  // rows: every stored entry must appear in its row and conversely (only for rows that hold at least one entry)
-  // cols[j] = column of the cell at position j by position; uidx[j] = container index of that column
-  void check_rows(E& ex, const std::vector<Vec>& cols, const std::vector<Index>& uidx, const std::string& stage) {
-    if constexpr (O::has_row_access) {
-      Model& md = ex.mod;
-      int n = md.n();
-      for (int r = 0; r < n; ++r) {
-        std::map<Index, int> want;
-        for (int j = 0; j < n; ++j) if (cols[j][r]) want[uidx[j]] = cols[j][r];
-        if (want.empty()) continue;
-        std::map<Index, int> got;
-        bool rowok = true;
-        phase("get_row");
-        const auto& row = ex.m->get_row(md.ids[r]);
-        for (const auto& e : row) {
-          int val = 1;
-          if constexpr (!O::is_z2) val = (int)e.get_element();
-          got[e.get_column_index()] += val;
-          if (e.get_row_index() != md.ids[r]) rowok = false;
-        }
-        ++comparisons;
-        if (!rowok || got != want) {
-          std::ostringstream o;
-          o << "row of id " << md.ids[r] << " (position " << r << ") holds columns {";
-          for (auto& kv : got) o << kv.first << ":" << kv.second << " ";
-          o << "} want {";
-          for (auto& kv : want) o << kv.first << ":" << kv.second << " ";
-          o << "}";
-          bad("get_row:" + fl + stage, o.str());
-        }
-      }
-    }
-  }
-
-  // oracle: which positions are deaths, and the lowest entry of their reduced column
-  struct Lows {
-    std::vector<int> low;  // low[j] = birth position killed by j, -1 if the reduced column j is zero
-  };
-  Lows oracle_lows(const Model& md) {
-    Lows l;
-    l.low.assign(md.n(), -1);
-    for (auto& q : oracle_pairs(md)) if (q.death >= 0) l.low[q.death] = q.birth;
-    return l;
-  }
-
-  // R: non-zero columns have distinct lowest entries, the zero pattern and lowest entries are the canonical ones,
-  // and R_j = c B_j + combination of earlier boundaries, c != 0
-  void check_R(E& ex, const std::vector<Vec>& R, const std::string& stage) {
-    Model& md = ex.mod;
-    int n = md.n();
-    auto B = md.boundary_matrix();
-    Lows lw = oracle_lows(md);
-    std::set<int> lows;
-    bool reduced = true;
-    for (int j = 0; j < n; ++j) {
-      int l = low_of(R[j]);
-      if (l >= 0 && !lows.insert(l).second) reduced = false;
-    }
-    ++comparisons;
-    if (!reduced) bad("R_reduced:" + fl + stage, "two non-zero columns of R share their lowest entry");
-    for (int j = 0; j < n; ++j) {
-      int l = low_of(R[j]);
-      ++comparisons;
-      if (l != lw.low[j]) {
-        bad("R_lowest_entry:" + fl + stage, "position " + std::to_string(j) + " R column " + vstr(R[j]) + " lowest " +
-                                                std::to_string(l) + " want " + std::to_string(lw.low[j]));
-        continue;
-      }
-      // R_j in span(B_0..B_j), and (if non-zero) not in span(B_0..B_{j-1})
-      std::vector<Vec> before(B.begin(), B.begin() + j);
-      std::vector<Vec> upto(B.begin(), B.begin() + j + 1);
-      ++comparisons;
-      bool ok = in_span(upto, R[j], md.p) && (is_zero(R[j]) || !in_span(before, R[j], md.p));
-      if (!ok) bad("R_not_column_equivalent_to_boundary:" + fl + stage,
-                   "position " + std::to_string(j) + " R column " + vstr(R[j]) + " boundary " + vstr(B[j]));
-      if (!(R[j] == B[j])) cnt(NV_CHANGED)++;
-    }
-  }
-
-  void pivots_and_zero(E& ex, const std::vector<Vec>& R, const std::string& stage) {
-    Model& md = ex.mod;
-    for (int j = 0; j < md.n(); ++j) {
-      Index idx = ex.index_of(j);
-      int l = low_of(R[j]);
-      Index want = l < 0 ? NUL : md.ids[l];
-      phase("get_pivot");
-      eq(ex.m->get_pivot(idx), want, "get_pivot:" + fl + stage, "pivot of the column at position " + std::to_string(j));
-      phase("is_zero_column");
-      eq(ex.m->is_zero_column(idx), l < 0, "is_zero_column:" + fl + stage, "position " + std::to_string(j));
-      phase("get_column_dimension");
-      eq((int)ex.m->get_column_dimension(idx), md.dim(j), "get_column_dimension:" + fl + stage,
-         "position " + std::to_string(j));
-      if constexpr (O::flavour == F_RU) {
-        phase("get_column_with_pivot");
-        if (l >= 0) eq(ex.m->get_column_with_pivot(md.ids[l]), idx, "get_column_with_pivot:" + fl + stage,
-                       "column with pivot id " + std::to_string(md.ids[l]));
-      }
-    }
-  }
-
-  std::vector<Vec> read_main(E& ex, const std::string& stage, bool& ok) {
-    Model& md = ex.mod;
-    std::vector<Vec> R;
-    ok = true;
-    for (int j = 0; j < md.n(); ++j) {
-      phase("get_column");
-      auto r = ex.read_by_id(ex.m->get_column(ex.index_of(j)));
-      ++comparisons;
-      if (!r.ok) {
-        ok = false;
-        bad("column_entry_on_unknown_row:" + fl + stage, "position " + std::to_string(j) + " holds" + r.bad);
-      }
-      R.push_back(r.v);
-    }
-    return R;
-  }
-
-  // ---- R-only boundary matrix ----
-  void after_boundary(E& ex, const std::string& stage, bool reduced) {
-    Model& md = ex.mod;
-    common(ex);
-    bool ok;
-    auto R = read_main(ex, stage, ok);
-    if (!ok) return;
-    std::vector<Index> uidx;
-    for (int j = 0; j < md.n(); ++j) uidx.push_back((Index)j);
-    if (!reduced) {
-      auto B = md.boundary_matrix();
-      for (int j = 0; j < md.n(); ++j) {
-        ++comparisons;
-        if (!(R[j] == B[j])) bad("boundary:column_before_reduction", "position " + std::to_string(j) + " got " + vstr(R[j]) +
-                                                                      " want " + vstr(B[j]));
-      }
-    } else {
-      check_R(ex, R, stage);
-    }
-    pivots_and_zero(ex, R, stage);
-    check_rows(ex, R, uidx, stage);
-  }
-
-  void run_boundary(E& ex, const std::vector<int>& ops) {
-    for (int op : ops) ex.apply(op);
-    after_boundary(ex, ":before_barcode", false);
-    compare_barcode(ex, "");
-    after_boundary(ex, "", true);
-    if constexpr (E::CAN_REMOVE) {
-      if (g_tail) {
-        while (ex.mod.n() > 0) {
-          ex.remove_last();
-          cnt(NV_TAIL)++;
-          compare_barcode(ex, ":after_remove_last");
-          after_boundary(ex, ":after_remove_last", true);
-        }
-      }
-    }
-  }
-
-  // ---- RU ----
-  void run_ru(E& ex, const std::vector<int>& ops) {
-    for (int op : ops) ex.apply(op);
-    Model& md = ex.mod;
-    int n = md.n(), p = md.p;
-    common(ex);
-    compare_barcode(ex, "");
-    bool ok;
-    auto R = read_main(ex, "", ok);
-    if (!ok) return;
-    check_R(ex, R, "");
-    pivots_and_zero(ex, R, "");
-    std::vector<Index> uidx;
-    for (int j = 0; j < n; ++j) uidx.push_back((Index)j);
-    check_rows(ex, R, uidx, "");
-    // the second factor (rows are positions)
-    std::vector<Vec> S;
-    bool sok = true;
-    for (int j = 0; j < n; ++j) {
-      ColRead r;
-      phase("get_column(U)");
-      if constexpr (!E::ID_IDX) r = ex.read_by_pos(ex.m->get_column((Index)j, false));
-      else r = ex.read_by_pos(ex.under().mirrorMatrixU_.get_column((Index)j));
-      ++comparisons;
-      if (!r.ok) {
-        sok = false;
-        bad(std::string("ru:second_factor_entry_on_removed_row:") + (O::is_z2 ? "z2" : "zp"),
-            "stored column " + std::to_string(j) + " of the second factor holds" + r.bad + " with " + std::to_string(n) +
-                " cells present");
-      }
-      S.push_back(r.v);
-    }
-    if (!sok) return;
-    auto B = md.boundary_matrix();
-    bool offdiag = false;
-    if constexpr (O::is_z2) {
-      // stored = transpose of U, B = R * U, U upper triangular with unit diagonal
-      bool shape = true;
-      for (int k = 0; k < n; ++k) {
-        if (S[k][k] != 1) shape = false;
-        for (int r = 0; r < k; ++r) if (S[k][r]) shape = false;
-        for (int r = k + 1; r < n; ++r) if (S[k][r]) offdiag = true;
-      }
-      ++comparisons;
-      if (!shape) bad("ru:second_factor_not_unitriangular:z2", "stored (transposed) factor is not lower unitriangular");
-      for (int j = 0; j < n; ++j) {
-        Vec acc(n, 0);
-        for (int k = 0; k < n; ++k) if (S[k][j]) axpy(acc, S[k][j], R[k], p);
-        ++comparisons;
-        if (!(acc == B[j])) {
-          bad("ru:B_equals_R_times_U:z2", "column " + std::to_string(j) + " of R*U is " + vstr(acc) + " boundary " + vstr(B[j]));
-          break;
-        }
-      }
-    } else {
-      // stored = V, B * V = R, V upper triangular with non-zero diagonal
-      bool shape = true;
-      for (int j = 0; j < n; ++j) {
-        if (!S[j][j]) shape = false;
-        for (int r = j + 1; r < n; ++r) if (S[j][r]) shape = false;
-        for (int r = 0; r < j; ++r) if (S[j][r]) offdiag = true;
-      }
-      ++comparisons;
-      if (!shape) bad("ru:second_factor_not_triangular:zp", "stored factor is not upper triangular with non-zero diagonal");
-      for (int j = 0; j < n; ++j) {
-        Vec acc(n, 0);
-        for (int k = 0; k < n; ++k) if (S[j][k]) axpy(acc, S[j][k], B[k], p);
-        ++comparisons;
-        if (!(acc == R[j])) {
-          bad("ru:B_times_V_equals_R:zp", "column " + std::to_string(j) + " of B*V is " + vstr(acc) + " R column " + vstr(R[j]));
-          break;
-        }
-        for (int k = 0; k < j; ++k) if (S[j][k] > 1 && S[j][k] < p - 1) cnt(NV_NONUNIT)++;
-      }
-    }
-    if (offdiag) cnt(NV_OFFDIAG)++;
-  }
-
-  // ---- chain ----
-  void run_chain(E& ex, const std::vector<int>& ops) {
-    for (int op : ops) ex.apply(op);
-    Model& md = ex.mod;
-    int n = md.n(), p = md.p;
-    common(ex);
-    compare_barcode(ex, "");
-    // pivots map back to their columns
-    std::vector<Index> idx(n), uidx(n);
-    std::map<Index, int> upos;
-    for (int j = 0; j < n; ++j) {
-      phase("get_column_with_pivot");
-      idx[j] = ex.index_of(j);
-      uidx[j] = ex.under().get_column_with_pivot(md.ids[j]);
-      upos[uidx[j]] = j;
-      phase("get_pivot");
-      eq(ex.m->get_pivot(idx[j]), md.ids[j], "get_pivot:chain", "pivot of the column of position " + std::to_string(j));
-      Index want = E::ID_IDX ? md.ids[j] : E::POS_IDX ? (Index)j : uidx[j];
-      phase("get_column_with_pivot");
-      eq(ex.m->get_column_with_pivot(md.ids[j]), want, "get_column_with_pivot:chain", "column with pivot id " + std::to_string(md.ids[j]));
-      phase("get_column_dimension");
-      eq((int)ex.m->get_column_dimension(idx[j]), md.dim(j), "get_column_dimension:chain", "position " + std::to_string(j));
-      phase("is_zero_column");
-      eq(ex.m->is_zero_column(idx[j]), false, "is_zero_column:chain", "position " + std::to_string(j));
-    }
-    ++comparisons;
-    if ((int)upos.size() != n) bad("chain:columns_not_distinct", "two cells share a column");
-    bool ok;
-    auto C = read_main(ex, "", ok);
-    if (!ok) return;
-    check_rows(ex, C, uidx, "");
-    auto want = oracle_pairs(md);
-    std::vector<int> partner(n, -1);
-    for (auto& q : want) if (q.death >= 0) { partner[q.birth] = q.death; partner[q.death] = q.birth; }
-    for (int j = 0; j < n; ++j) {
-      // leading cell = the cell of the column, coefficient non-zero, homogeneous dimension
-      ++comparisons;
-      bool shape = low_of(C[j]) == j;
-      for (int r = 0; r < n; ++r) if (C[j][r] && md.dim(r) != md.dim(j)) shape = false;
-      if (!shape) { bad("chain:leading_cell", "column of position " + std::to_string(j) + " is " + vstr(C[j])); continue; }
-      phase("get_column");
-      const auto& col = ex.m->get_column(idx[j]);
-      int got_partner = -1;
-      if (col.is_paired()) {
-        auto it = upos.find(col.get_paired_chain_index());
-        got_partner = it == upos.end() ? -2 : it->second;
-      }
-      ++comparisons;
-      if (got_partner != partner[j]) {
-        bad("chain:pairing", "column of position " + std::to_string(j) + " paired with position " + std::to_string(got_partner) +
-                                 " want " + std::to_string(partner[j]));
-        continue;
-      }
-      Vec d = md.boundary_of(C[j]);
-      ++comparisons;
-      if (partner[j] < 0 || partner[j] > j) {
-        if (!is_zero(d)) bad(partner[j] < 0 ? "chain:unpaired_column_not_a_cycle" : "chain:birth_column_not_a_cycle",
-                             "column of position " + std::to_string(j) + " = " + vstr(C[j]) + " has boundary " + vstr(d));
-      } else {
-        if (!(d == C[partner[j]]))
-          bad("chain:boundary_of_paired_column", "column of position " + std::to_string(j) + " = " + vstr(C[j]) + " has boundary " +
-                                                     vstr(d) + " but its partner (position " + std::to_string(partner[j]) +
-                                                     ") is " + vstr(C[partner[j]]));
-      }
-      int nz = 0;
-      for (int r = 0; r < n; ++r) if (C[j][r]) { ++nz; if (C[j][r] > 1 && C[j][r] < p - 1) cnt(NV_NONUNIT)++; }
-      if (nz > 1) cnt(NV_CHAINMULTI)++;
-    }
-  }
+  using Verifier<O>::cfg;
+  using Verifier<O>::fl;
+  using Verifier<O>::comparisons;
+  using Verifier<O>::bad;
+  using Verifier<O>::crash_class;
+  using Verifier<O>::run_boundary;
+  using Verifier<O>::run_ru;
+  using Verifier<O>::run_chain;
 
   void run_case(const Universe& U, int p, int idm, int ctor, const std::vector<int>& ops) {
     vf::set_case(case_string(cfg, U, p, idm, ctor, ops));
@@ -406,10 +52,6 @@ struct Check {
     if (hi.removes > 0) cnt(NV_REMHIST)++;
     if (hi.empty_remove) cnt(NV_EMPTYREM)++;
     cnt(CASES_FIRST + O::flavour * 2 + (O::is_z2 ? 0 : 1))++;
-  }
-  // class of a death / exception: without the "C05:" prefix and suffix (added by bad())
-  std::string crash_class(const std::string& ph, const std::string& kind) {
-    return "crash:" + fl + ":" + idx_name(O::column_indexation_type) + ":" + ph + ":" + kind;
   }
 };
 
